@@ -135,9 +135,24 @@ Curated == <<
   \* TALL (more objectives than parameters, n < m) with conflicting, linearly independent non-zero rows and one
   \* zero row: every zero-column presentation turns them into square / wide matrices
   << <<1, 2>>, <<0, 0>>, <<-2, -1>> >>,
-  << <<1, 1, -1>>, <<0, 0, 0>>, <<2, -2, 0>>, <<-1, -2, -2>> >> >>
+  << <<1, 1, -1>>, <<0, 0, 0>>, <<2, -2, 0>>, <<-1, -2, -2>> >>,
+  \* TALL with independent COLUMNS (rank = n < m: the rows are necessarily dependent), CONFLICTING rows and one
+  \* common squared row norm (5, 25, 9, 6): the family on which ConFIG is exact (SymAgg!SymConFIG) and on which
+  \* the projections <g_i, u> of the rows on ConFIG's direction have BOTH signs, so that the total length
+  \* sum_i c_i <g_i, u> changes sign with the row scaling c.  Positive row scalings (C09) turn them into
+  \* matrices with rows of any norms; one has a zero row, one has J^T 1 = 0 (exact direction zero: degenerate)
+  << <<-1, 2>>, <<2, -1>>, <<-2, -1>> >>,
+  << <<4, -3>>, <<0, 5>>, <<-3, -4>> >>,
+  << <<-1, 2>>, <<2, 1>>, <<-1, -2>>, <<-2, -1>> >>,
+  << <<0, 0, 3>>, <<2, -1, 2>>, <<1, -2, -2>>, <<-2, 2, -1>> >>,
+  << <<-1, -1, -2>>, <<-1, -1, 2>>, <<1, 2, -1>>, <<1, -2, 1>> >>,
+  << <<-1, 2>>, <<0, 0>>, <<2, -1>>, <<-2, -1>> >>,
+  << <<1, 2>>, <<-1, -2>>, <<2, -1>>, <<-2, 1>> >>,
+  << <<2, 1>>, <<-2, -1>>, <<2, -1>>, <<1, 2>>, <<-1, -2>> >>,
+  << <<2, 1, -2>>, <<-2, -2, -1>>, <<0, 0, 3>>, <<2, -2, -1>>, <<-1, 2, 2>> >> >>
 
 CuratedBadlyConditioned == {26, 27, 28}       \* positions of the badly conditioned instances in Curated
+CuratedTall == 31..39                         \* positions of the tall equal-norm instances in Curated
 
 \* parameter vectors of instance number k: entries 0..4 (pref / leak*4), not all zero;
 \* Constant weights W = P - 2 (negative, zero and positive weights)
@@ -340,6 +355,10 @@ LawC08 ==
                     ~k0.amb => SymKrumValue(k0.sel, k, J, den, N)
                                  = TimesQ(SymKrumValue(k0.sel, k, Jp, 1, N0))
     /\ QIsColPerm => \A b \in TMCfgs : SymTM(b, J, den, N) = TimesQ(SymTM(b, Jp, 1, N0))
+    \* ConFIG where it is exact (CfgOn, defined with LawC09 below): the direction turns with Q
+    /\ (cls.colFull /\ cls.equalNorm /\ N = N0 /\ den = 1) =>
+          \A w \in {Ones(M), P} : /\ SymConFIG(J, w).y = VecMat(SymConFIG(Jp, w).y, Q, N)
+                                  /\ SymConFIG(J, w).d = SymConFIG(Jp, w).d
 
 LawC10 ==
     /\ SymMean(J, den, N) = SymMean(J0Q, den, N)
@@ -358,6 +377,11 @@ LawC10 ==
                         /\ ~k0.amb => /\ k1.sel = {i \in 1..M : rp[i] \in k0.sel}
                                       /\ SymKrumValue(k1.sel, k, J, den, N)
                                            = SymKrumValue(k0.sel, k, J0Q, den, N)
+    \* ConFIG where it is exact: the direction does not depend on the order of the rows, the coefficients of the
+    \* length move with the rows
+    /\ (cls.colFull /\ cls.equalNorm /\ N = N0) =>
+          /\ SymConFIG(J, Ones(M)).y = SymConFIG(J0Q, Ones(M)).y /\ SymConFIG(J, P).y = SymConFIG(J0Q, base.P).y
+          /\ SymConFIG(J, P).d = SymPerm(SymConFIG(J0Q, base.P).d, rp)
 
 -----------------------------------------------------------------------------
 (* zero columns in any number and at any place; the wide presentation                           *)
@@ -487,11 +511,29 @@ HistLaw == \A q \in 1..Len(HistPlans) : \A k \in 1..Len(HistPlans[q]) :
               /\ CellAfter(HistPlans[q], k, CellName(HistPlans[q][k].p)) = Content(HistPlans[q][k].c)
 
 Lin(A(_)) == A(RowScale(XC, J)) = RVAdd(RVScale(R(ca), A(RowScale(c1, J))), RVScale(R(cb), A(RowScale(c2, J))))
+
+\* ConFIG where the model decides it exactly (independent columns, one common norm of the non-zero rows, the
+\* presented matrix has the columns of the instance): direction y (normal equations), the coefficients d_i of
+\* the length l(c) = sum_i c_i d_i, and the SIGN of l for the three scalings of the linearity law.  l(c) does not
+\* fit 32 bits for c up to 2^20; it is carried by its base-1024 digits, on which linearity is checked.
+CfgOn == cls.colFull /\ cls.equalNorm /\ N = N0 /\ pad = NoPad
+CfgData(w) == LET r == SymConFIG(J, w)
+              IN  [y |-> r.y, yy |-> r.yy, d |-> r.d, deg |-> r.deg,
+                   sg |-> [x |-> SymSignL(XC, r.d), x1 |-> SymSignL(c1, r.d), x2 |-> SymSignL(c2, r.d)]]
+CfgLaw(w) == LET r == SymConFIG(J, w) IN
+    /\ r.det >= 1
+    /\ MatVec(SymColGram(J), r.y0) = VScale(r.det, r.t)             \* (J^T J) y0 = det(J^T J) J^T w
+    /\ r.deg = (\A j \in 1..N : r.t[j] = 0)                          \* zero direction iff J^T w = 0
+    /\ \A k \in 0..2 : SymDigit(XC, r.d, k) = ca * SymDigit(c1, r.d, k) + cb * SymDigit(c2, r.d, k)
+    /\ (\A i \in 1..M : c1[i] = 1 /\ c2[i] = 1) => SymSignL(c1, r.d) = Sgn(SumSeq(r.d))
+LawConFIG == CfgOn => CfgLaw(Ones(M)) /\ CfgLaw(P)
+
 LawC09 ==
     /\ LET A(X) == SymMean(X, den, N) IN Lin(A)
     /\ LET A(X) == SymSum(X, den, N) IN Lin(A)
     /\ LET A(X) == SymConstant(P, X, den, N) IN Lin(A)
     /\ LET A(X) == SymConstant(W, X, den, N) IN Lin(A)
+    /\ LawConFIG
 
 \* ---- singular values of a row-scaled matrix X = diag(c) J against a threshold (norm_eps of UPGrad)
 \* For ANY real matrix X with rows x_i:  |x_i|^2 = |X^T e_i|^2 lies between the extreme eigenvalues of the
@@ -587,7 +629,9 @@ Scenario ==
      c1 |-> c1, c2 |-> c2, a |-> ca, b |-> cb,
      pad |-> pad, padpos |-> PadPosSeq, widek |-> WideK, ladder |-> LadderWalks, normeps |-> NormEpsCfgs,
      hist |-> HistPlan, other |-> OtherRows, nearmax |-> NearMaxFlags, maxabs |-> MaxAbsJ,
-     badcond |-> base.id \in CuratedBadlyConditioned,
+     badcond |-> base.id \in CuratedBadlyConditioned, tall |-> base.id \in CuratedTall,
+     cfg |-> IF CfgOn THEN [on |-> TRUE, ones |-> CfgData(Ones(M)), pref |-> CfgData(P)]
+             ELSE [on |-> FALSE, ones |-> <<>>, pref |-> <<>>],
      colperm |-> QIsColPerm, cls |-> cls, prefDeg |-> PrefDeg, gd |-> GDiag,
      exp |-> ExpLinear(J, den), rob |-> ExpRobust,
      lin |-> IF Mode = "scale"
